@@ -3,7 +3,7 @@
    fn <id> <args> <max_stack_size> <tok> <tok> ...
         <tok> ::= Name | Name:a | Name:a:b       instruction with its integer operands
                   Split:k                        k = annotated field count (NOT an operand)
-        reply:  fn <id> ok peak=<max height in the inferred table>
+        reply:  fn <id> ok
                 fn <id> reject infer@<pc> | check@<pc> | init
    acct <hdr> <limit> <op> <op> ...
         <op> ::= a<size> | i<size> | A<size> | d<index> | c
@@ -101,7 +101,7 @@ let do_fn toks =
            if check_table f tbl then begin
              let peak = List.fold_left (fun m o -> match o with Some h -> max m (int_of_nat h) | None -> m) 0 (heights tbl) in
              (* cross-check: verify_fn is literally infer + check_table *)
-             if verify_fn f then Printf.sprintf "fn %s ok peak=%d" id peak
+             if verify_fn f then (ignore peak; Printf.sprintf "fn %s ok" id)
              else Printf.sprintf "fn %s reject verify_fn-disagrees" id
            end else
              (match first_bad f tbl O code tbl with
